@@ -1,4 +1,5 @@
 mod codec;
+mod effects;
 mod expr;
 mod treemath;
 
@@ -11,6 +12,7 @@ fn main() {
     match a[1].as_str() {
         "treemath" => treemath::run(&a[2], &a[3]),
         "codec" => codec::run(&a[2], &a[3]),
+        "effects" => effects::run(&a[2], &a[3]),
         _ => std::process::exit(2),
     }
 }
